@@ -15,7 +15,7 @@ REGENERATE_SRC = True
 RULE = ("histories of 1..60 operations (demand writes, child supply / utilisation / allocation / demand changes, children "
         "setting their own demand to 0, released children garbage-collected, adjustment cycles driven through run() "
         "under trio's MockClock) over 0..6 initial children and factories of varying child demand, with ties in the "
-        "shrink key; the hatchery's iteration order is read from the live set just before each adjustment and passed "
+        "shrink key; in a quarter of the cases the children are of a pool class that declares __slots__; the hatchery's iteration order is read from the live set just before each adjustment and passed "
         "to the model; thorough adds all histories up to depth 5 over a small alphabet; non-trivial = at least one "
         "adjustment that spawned or released a child; distinct = distinct canonical case JSON")
 ASSUMPTIONS = ["the hatchery is a set: its iteration order is an input of the model (taken from the implementation before each adjustment)",
